@@ -1,7 +1,8 @@
 (* C07 — the discrete acquisition optimisers pick distinct maximisers in non-increasing order, for
    arbitrary value tables including ties. *)
 From Coq Require Import QArith List Bool.
-From VOPy Require Import Optimize OptimizeProofs.
+From VOPy Require Import Optimize OptimizeProofs OptLoop OptRefine.
+From VOPyGen Require Import Gen_opt.
 From VOPy Require Spec.
 From VOPyGen Require Gen_algos.
 Import ListNotations.
@@ -62,3 +63,10 @@ Theorem C07_gp_algorithms_offer_exactly_the_active_designs : forall S P U,
   Spec.ef_decoupled (Gen_algos.vogp_evaluating S P U) = false.
 Proof. intros. repeat split. Qed.
 Print Assumptions C07_gp_algorithms_offer_exactly_the_active_designs.
+
+(* the while-loop of optimize_acqf_discrete REGENERATED literally from the source (clamp of q, np.argmax, removal of the chosen
+   row by slicing: Gen_opt.v) returns exactly what the model returns, for choices carrying distinct row indices *)
+Theorem C07_regenerated_optimiser_is_the_model : forall q l, NoDup (map fst l) ->
+  gen_optimize_acqf_discrete q l = opt_discrete q l.
+Proof. exact gen_optimize_is_model. Qed.
+Print Assumptions C07_regenerated_optimiser_is_the_model.
